@@ -1064,12 +1064,45 @@ func (x *vc) typeAssert(fr *frame, st *state, in *ssa.TypeAssert, pos string) Va
 func (x *vc) implementsPred(iface types.Type) string {
 	name := "implements_" + shortTypeName(iface)
 	for _, d := range x.decls {
-		if strings.HasPrefix(d, "(declare-fun "+name+" ") {
+		if strings.HasPrefix(d, "(define-fun "+name+" ") {
 			return name
 		}
 	}
-	x.decls = append(x.decls, fmt.Sprintf("(declare-fun %s (Int) Bool)", name))
+	// the same relation as reflect.Type.Implements: rt_implements(type tag, identifier of the interface type)
+	x.decls = append(x.decls, fmt.Sprintf("(define-fun %s ((t Int)) Bool (rt_implements t %d))", name, x.srt.typeID(iface)))
+	if it, ok := iface.Underlying().(*types.Interface); ok {
+		x.implPreds = append(x.implPreds, implPred{name: name, iface: it})
+	}
 	return name
+}
+
+// implPred: an "implements interface I" predicate over type tags; implFacts states it for every concrete type whose
+// tag is known (by the type checker's method sets), so that e.g. a string is known not to be a Callable
+type implPred struct {
+	name  string
+	iface *types.Interface
+	done  int // type identifiers below this one have been stated
+}
+
+func (x *vc) implFacts() {
+	for i := range x.implPreds {
+		p := &x.implPreds[i]
+		for idx := p.done; idx < len(x.srt.typeByID); idx++ {
+			t, id := x.srt.typeByID[idx], idx+1 // identifiers start at 1
+			if t == nil || types.IsInterface(t) {
+				continue
+			}
+			if n, ok := t.(*types.Named); ok && n.Obj() != nil && strings.HasPrefix(n.Obj().Name(), "fn:") {
+				continue // function identities, not types
+			}
+			fact := app(p.name, smtInt(int64(id)))
+			if !types.Implements(t, p.iface) {
+				fact = not(fact)
+			}
+			x.asserts = append(x.asserts, "(assert "+fact+")")
+		}
+		p.done = len(x.srt.typeByID)
+	}
 }
 
 func (x *vc) convert(fr *frame, st *state, in *ssa.Convert, pos string) Val {
